@@ -41,28 +41,34 @@ fn stalls(proxy: bool) -> Vec<&'static str> {
 }
 
 /// Drives a hostile client to its stall point and returns the open socket(s) to be held.
-async fn hostile(server: SocketAddr, proxy: bool, stall: &str, n: usize) -> Option<McClient> {
+async fn hostile(server: SocketAddr, proxy: bool, stall: &str, n: usize) -> Option<Option<McClient>> {
     let src: SocketAddr = format!("198.51.{}.{}:4000", 100 + n / 200, 20 + n % 200).parse().unwrap();
-    let mut c = McClient::connect(server, Some("127.0.0.2".parse().unwrap())).await.ok()?;
+    let mut c = match McClient::connect(server, Some("127.0.0.2".parse().unwrap())).await {
+        Ok(c) => c,
+        // (a listener may refuse a connection - the limiter's verdict - by resetting it, and on loopback the reset
+        // can overtake the end of connect(): such a hostile client was turned away, which is the listener's right)
+        Err(e) if e.kind() == std::io::ErrorKind::ConnectionReset => return Some(None),
+        Err(_) => return None,
+    };
     // "mapped:<stall>": the load balancer reports its IPv4 clients in IPv4-mapped form (TCP6 ::ffff:a.b.c.d)
     let (hdr, stall) = match stall.strip_prefix("mapped:") {
         Some(rest) => (format!("PROXY TCP6 ::ffff:{} ::1 {} {}\r\n", src.ip(), src.port(), server.port()).into_bytes(), rest),
         None => (proxy_v1(src, server), stall),
     };
     match stall {
-        "connected-silent" => return Some(c),
+        "connected-silent" => return Some(Some(c)),
         "inside-proxy-header-1-byte" => {
             let _ = c.send_raw(&hdr[..1]).await;
-            return Some(c);
+            return Some(Some(c));
         }
         "inside-proxy-header-half" => {
             let _ = c.send_raw(&hdr[..hdr.len() / 2]).await;
-            return Some(c);
+            return Some(Some(c));
         }
         "short-non-proxy-bytes" => {
             // fewer bytes than the shortest PROXY header: the parser cannot decide yet
             let _ = c.send_raw(&[0x06, 0x00, 0x81, 0x06, 0x01]).await;
-            return Some(c);
+            return Some(Some(c));
         }
         _ => {}
     }
@@ -70,7 +76,7 @@ async fn hostile(server: SocketAddr, proxy: bool, stall: &str, n: usize) -> Opti
         let _ = c.send_raw(&hdr).await;
     }
     if stall == "proxy-header-complete-nothing-more" {
-        return Some(c);
+        return Some(Some(c));
     }
     let p = LoginParams { wait: Duration::from_millis(1500), ..Default::default() };
     let mut out = LoginOutcome { packets: vec![], stage: Stage::Connected, error: None };
@@ -90,7 +96,7 @@ async fn hostile(server: SocketAddr, proxy: bool, stall: &str, n: usize) -> Opti
         }
         other => common::machinery(&format!("stall {other}")),
     }
-    Some(c)
+    Some(Some(c))
 }
 
 fn socket_linger_zero(s: &std::net::TcpStream) -> std::io::Result<()> {
@@ -124,7 +130,12 @@ fn run_churn(spec: &Spec) -> (Duration, bool, String, bool) {
                 }
                 continue;
             }
-            let Ok(mut c) = McClient::connect(running.addr, Some("127.0.0.2".parse().unwrap())).await else {
+            let conn = McClient::connect(running.addr, Some("127.0.0.2".parse().unwrap())).await;
+            if matches!(&conn, Err(e) if e.kind() == std::io::ErrorKind::ConnectionReset) && !running.done.is_finished() {
+                // (turned away with a reset that overtook the end of connect(): one more short-lived connection)
+                continue;
+            }
+            let Ok(mut c) = conn else {
                 if running.done.is_finished() {
                     // not a harness problem: the listener itself has given up
                     break;
@@ -269,7 +280,8 @@ fn run_schedule(spec: &Spec) -> (Duration, bool, String, bool) {
         let mut hostile_ok = true;
         for n in 0..spec.hostile {
             match hostile(running.addr, spec.proxy, &spec.stall, n).await {
-                Some(c) => held.push(c),
+                Some(Some(c)) => held.push(c),
+                Some(None) => {}
                 None => hostile_ok = false,
             }
         }
